@@ -32,6 +32,10 @@ BR_FULL = ['C', 'N', 'O', 'Cl', 'Fe', 'A', 'M', '#6', '#8', 'c', 'Xx', 'H', ';',
 BR_SLICE = ['C', 'N', 'A', 'M', '#6', ';', ',', 'D1', 'D2', 'h1', 'r5', 'x1', 'z2', 'a', '!R', 'R', 'D', 'z5', '+', '-', '+2', '13', '@', ':1', '&', '!', 'H', 'Cl']
 BR_CHARS = list('CNAM#6;,Dhrxza!R12+-@:&0')
 BOND_CHARS = list('-=#:~,!;@/\\')
+# fixed, tier-independent inputs (shortest witnesses of every family reproduced on the pinned tree): same family key set in both tiers
+ANCHORS_BR = ['!;,', 'C;,', '+-', '+M', 'M+', '13A', '0A', '#!', '#120,', '#613,C', ',', 'C,', 'A;D15', 'A;D1,D1', '#120', '!', 'Xx', 'c', 'C&D2', 'C@@@', 'C+5',
+              'C:0', 'HH', 'A;z0', 'A;z5', 'A;r0', 'A;r2']
+ANCHORS_BOND = ['!~', '#;@;@', '=;@;@']
 
 _S = {}
 
@@ -210,6 +214,16 @@ def _w_br_tokens(args):
         for suf in itertools.product(alphabet, repeat=k):
             b = base + ''.join(suf)
             acc.note('[' + b + ']', judge_bracket(b), keep)
+    return acc.result()
+
+
+def _w_anchors(_):
+    _setup()
+    acc = _Acc()
+    for b in ANCHORS_BR:
+        acc.note('[' + b + ']', judge_bracket(b))
+    for t in ANCHORS_BOND:
+        acc.note('C' + t + 'N', judge_bond(t))
     return acc.result()
 
 
@@ -502,6 +516,8 @@ def bounded(run):
     KB = 4 if quick else 5
     res += pmap(_w_bonds, [('', 1)] + [(a + b, KB - 2) for a in BOND_CHARS for b in BOND_CHARS], chunksize=4)
     run.bound(f'bond strings C<b>N: all {sum(len(BOND_CHARS) ** k for k in range(0, KB + 1))} strings b of 0..{KB} characters over {"".join(BOND_CHARS)!r}')
+    res += [_w_anchors(None)]
+    run.bound(f'anchors: {len(ANCHORS_BR)} bracket and {len(ANCHORS_BOND)} bond strings (shortest witnesses of every family reproduced on the pinned tree)')
     for n, keys, st, f, samples in res:
         run.case(n)
         run.nontrivial.update(keys)
